@@ -15,7 +15,7 @@ Local Open Scope N_scope.
 
 Definition pg_of (c : cfg) : cfg :=
   {| trig_of := trig_of c; fmode_in := fmode_in c; has_caller := has_caller c; gdepth := gdepth c;
-     threshold := threshold c; max_stack := max_stack c; sym_size := sym_size c; shp := PG |}.
+     threshold := threshold c; max_stack := max_stack c; sym_size := sym_size c; shp := PG; lmode_in := lmode_in c |}.
 
 (* ---------------------------------------------------------------- what the two shadow stacks share *)
 Definition uncyg (f : frame) : frame :=
@@ -161,7 +161,7 @@ Proof.
 Qed.
 
 (* mcount_entry_filter_check when the shadow stack is not full: a function of the filter state alone *)
-Definition core (tr : trig) (fm : bool) (gd : N) (f : fctl) (en : bool) : fctl * bool * verdict * trig * saved4 :=
+Definition core (tr : trig) (fm lo : bool) (gd : N) (f : fctl) (en : bool) : fctl * bool * verdict * trig * saved4 :=
   let sv : saved4 := (depth f, max_depth f, ftime f, fsize f) in
   let max0 := if max_depth f =? FILTER_NO_MAX_DEPTH then gd else max_depth f in
   if (out_count f >? 0)%Z then (f, en, V_OUT, notrig, sv) else
@@ -174,6 +174,7 @@ Definition core (tr : trig) (fm : bool) (gd : N) (f : fctl) (en : bool) : fctl *
             end in
   if (match t_filter tr with None => fm && (in_count f =? 0)%Z | _ => false end)
   then (f1, en, V_OUT, tr, sv) else
+  if lo then (f1, en, V_OUT, tr, sv) else
   let f2 := match t_depth tr with
             | Some d => {| in_count := in_count f1; out_count := out_count f1; depth := 0; max_depth := d;
                            ftime := ftime f1; fsize := fsize f1 |}
@@ -189,7 +190,7 @@ Definition core (tr : trig) (fm : bool) (gd : N) (f : fctl) (en : bool) : fctl *
 
 Lemma entry_check_noover c s a : idx s < max_stack c ->
   entry_check c s a =
-  let '(f', en', v, tr, sv) := core (trig_of c a) (fmode_in c) (gdepth c) (fc s) (enabled s) in
+  let '(f', en', v, tr, sv) := core (trig_of c a) (fmode_in c) (loc_out c (trig_of c a)) (gdepth c) (fc s) (enabled s) in
   ({| fc := f'; enabled := en'; cached := cached s; stack := stack s; ridx := ridx s; out := out s;
       warned := false |}, v, tr, sv).
 Proof.
@@ -199,14 +200,16 @@ Proof.
   cbn [fc enabled cached stack ridx out warned].
   destruct (out_count (fc s) >? 0)%Z; [reflexivity|].
   match goal with |- context [if ?b then (_, V_OUT, trig_of c a, _) else _] => destruct b end; [reflexivity|].
+  destruct (loc_out c (trig_of c a)); [reflexivity|].
   match goal with |- context [if ?b then _ else _] => destruct b end; reflexivity.
 Qed.
 
-Lemma core_not_rstack tr fm gd f en :
-  let '(_, _, v, _, _) := core tr fm gd f en in v <> V_RSTACK.
+Lemma core_not_rstack tr fm lo gd f en :
+  let '(_, _, v, _, _) := core tr fm lo gd f en in v <> V_RSTACK.
 Proof.
   unfold core. destruct (out_count f >? 0)%Z; [discriminate|].
   match goal with |- context [if ?b then (_, _, V_OUT, tr, _) else _] => destruct b end; [discriminate|].
+  destruct lo; [discriminate|].
   match goal with |- context [if ?b then _ else _] => destruct b end; discriminate.
 Qed.
 
@@ -377,9 +380,11 @@ Section sim.
     assert (Ip : idx sp < max_stack cp) by (unfold idx; cbn [cp pg_of max_stack]; lia).
     assert (Ic : idx sc < max_stack cc) by (unfold idx; cbn [cc cyg_of max_stack]; lia).
     unfold hooked, do_enter. rewrite (entry_check_noover cp sp a Ip), (entry_check_noover cc sc a Ic).
-    cbn [cp cc pg_of cyg_of trig_of fmode_in gdepth shp]. rewrite Hfc, Hen.
-    pose proof (core_not_rstack (trig_of c a) (fmode_in c) (gdepth c) (fc sc) (enabled sc)) as NRS.
-    destruct (core (trig_of c a) (fmode_in c) (gdepth c) (fc sc) (enabled sc)) as [[[[f' en'] v] tr] sv].
+    cbn [cp cc pg_of cyg_of trig_of fmode_in gdepth shp].
+    change (loc_out cp (trig_of c a)) with (loc_out c (trig_of c a)). change (loc_out cc (trig_of c a)) with (loc_out c (trig_of c a)).
+    rewrite Hfc, Hen.
+    pose proof (core_not_rstack (trig_of c a) (fmode_in c) (loc_out c (trig_of c a)) (gdepth c) (fc sc) (enabled sc)) as NRS.
+    destruct (core (trig_of c a) (fmode_in c) (loc_out c (trig_of c a)) (gdepth c) (fc sc) (enabled sc)) as [[[[f' en'] v] tr] sv].
     set (s1p := {| fc := f'; enabled := en'; cached := cached sp; stack := stack sp; ridx := ridx sp; out := out sp;
                    warned := false |}).
     set (s1c := {| fc := f'; enabled := en'; cached := cached sc; stack := stack sc; ridx := ridx sc; out := out sc;
@@ -507,13 +512,13 @@ Qed.
 (* non-vacuity: trace_off / trace_on switches, a notrace function with a time= trigger and a filter function *)
 Definition mi_cfg : cfg :=
   mkcfg [(1, {| t_filter := None; t_depth := None; t_time := None; t_size := None;
-                t_trace_on := false; t_trace_off := true; t_trace := false; t_caller := false |});
+                t_trace_on := false; t_trace_off := true; t_trace := false; t_caller := false; t_loc := None |});
          (2, {| t_filter := None; t_depth := None; t_time := None; t_size := None;
-                t_trace_on := true; t_trace_off := false; t_trace := false; t_caller := false |});
+                t_trace_on := true; t_trace_off := false; t_trace := false; t_caller := false; t_loc := None |});
          (3, {| t_filter := Some false; t_depth := None; t_time := Some 5; t_size := None;
-                t_trace_on := false; t_trace_off := false; t_trace := false; t_caller := false |});
+                t_trace_on := false; t_trace_off := false; t_trace := false; t_caller := false; t_loc := None |});
          (4, {| t_filter := Some true; t_depth := Some 2; t_time := None; t_size := None;
-                t_trace_on := false; t_trace_off := false; t_trace := true; t_caller := false |})]
+                t_trace_on := false; t_trace_off := false; t_trace := true; t_caller := false; t_loc := None |})]
         true false 3 0 16 [] PG.
 Definition mi_forest : list call :=
   [Call 0 10 100 [Call 4 12 60 [Call 1 14 20 [Call 5 15 16 []]; Call 5 22 24 []; Call 2 26 30 []; Call 3 32 40 [Call 5 33 34 []];
